@@ -20,7 +20,7 @@ func (C03) ID() string    { return "C03" }
 func (C03) Level() string { return "exploration" }
 func (C03) Runs(t core.Tier) int {
 	if t == core.Thorough {
-		return 2_500_000
+		return 1_200_000
 	}
 	return 50_000
 }
